@@ -54,8 +54,32 @@ Tied2(a, b, n1) == LET ra == PascalRow(a)  rb == PascalRow(b)  lo == Max2(0, n1 
    TLCEval([i \in 1..(hi - lo + 1) |-> LET r == lo + i - 1 IN [r |-> r, twoU |-> TwoU2(a, b, n1, r), mult |-> Mul(ra[r + 1], rb[n1 - r + 1])]])
 RECURSIVE SumMult(_,_)
 SumMult(it, j) == IF j = 0 THEN <<>> ELSE Add(it[j].mult, SumMult(it, j - 1))
+\* ---- large tied pools of three or more distinct values: <<n1, t1, t2, ..., tK>> ----
+\* every allocation r (r[k] of the t[k] copies of value k in the first sample; pruned to the feasible ones) with its
+\* multiplicity prod C(t[k], r[k]) in BigInt and its 2U; TLC checks that the multiplicities add up to C(N, n1)
+RECURSIVE SumT(_,_)
+SumT(t, k) == IF k > Len(t) THEN 0 ELSE t[k] + SumT(t, k + 1)                 \* t[k] + ... + t[K]
+RECURSIVE AllocsK(_,_,_)
+AllocsK(t, k, n) == IF k > Len(t) THEN (IF n = 0 THEN << <<>> >> ELSE <<>>)
+   ELSE LET rest == SumT(t, k + 1)
+            lo == IF n > rest THEN n - rest ELSE 0
+            hi == Min2(t[k], n)
+            RECURSIVE Over(_)
+            Over(a) == IF a > hi THEN <<>>
+                       ELSE LET tails == AllocsK(t, k + 1, n - a) IN TLCEval([i \in 1..Len(tails) |-> <<a>> \o tails[i]]) \o Over(a + 1)
+        IN Over(lo)
+RECURSIVE TwoUK(_,_,_,_)
+TwoUK(t, r, k, below) == IF k > Len(t) THEN 0 ELSE r[k] * (2 * below + (t[k] - r[k])) + TwoUK(t, r, k + 1, below + t[k] - r[k])
+RECURSIVE MultK(_,_,_)
+MultK(rows, r, k) == IF k > Len(r) THEN <<1>> ELSE Mul(rows[k][r[k] + 1], MultK(rows, r, k + 1))
+TiedK(t, n1) == LET rows == TLCEval([k \in 1..Len(t) |-> PascalRow(t[k])])  A == TLCEval(AllocsK(t, 1, n1)) IN
+   TLCEval([i \in 1..Len(A) |-> [r |-> A[i], twoU |-> TwoUK(t, A[i], 1, 0), mult |-> MultK(rows, A[i], 1)]])
 Emit == done =>
-   IF Len(sz) = 2
+   IF Len(sz) >= 4
+   THEN LET n1 == sz[1]  t == SubSeq(sz, 2, Len(sz))  N == SumT(t, 1)  it == TiedK(t, n1)  den == PascalRow(N)[n1 + 1] IN
+        /\ SumMult(it, Len(it)) = den
+        /\ PrintT(ToJson([kind |-> "tiedk", T |-> t, n1 |-> n1, n2 |-> N - n1, items |-> it, den |-> den]))
+   ELSE IF Len(sz) = 2
    THEN LET P == QBinom(sz[1], sz[2]) IN
         /\ Check(P, sz[1], sz[2])
         /\ PrintT(ToJson([kind |-> "untied", n1 |-> sz[1], n2 |-> sz[2], cnt |-> [j \in 1..Len(P) |-> P[j].m], den |-> PascalRow(sz[1] + sz[2])[sz[1] + 1]]))
@@ -65,7 +89,7 @@ Emit == done =>
         /\ PrintT(ToJson([kind |-> "tied2", a |-> a, b |-> b, n1 |-> n1, n2 |-> a + b - n1, items |-> it, den |-> den]))
 \* pairs <<n1, n2>>: untied; triples <<a, b, n1>>: tied pools of two values.  The lopsided untied sizes (one sample of 1..3
 \* values, the other up to 300) need a raised exact limit; the tied pools reach totals C(N,n1) beyond 2^63 and beyond 1e80
-SizesQuickBase == {<<3, 4>>, <<12, 15>>, <<39, 40>>, <<1, 3>>, <<1, 259>>, <<3, 44>>, <<2, 300>>,
+SizesQuickBase == {<<3, 4>>, <<12, 15>>, <<39, 40>>, <<40, 4, 4, 72>>, <<31, 3, 2, 62, 5>>, <<20, 30, 1, 30>>, <<1, 3>>, <<1, 259>>, <<3, 44>>, <<2, 300>>,
                <<30, 37, 34>>, <<40, 40, 40>>, <<135, 135, 135>>, <<3, 167, 85>>, <<255, 255, 10>>}
 \* (50,49): C(99,50) ~ 5e28 - the upper-tail sums of the untied CDF pass 1 - 1e-16 here (UDist's own check only: it costs a minute)
 SizesQuick == SizesQuickBase \cup {<<50, 49>>}
